@@ -170,6 +170,13 @@ class ElabPass:
         """Elaborate an BundleInstance"""
         # Annotate each BundleInstance so that its pre-elaboration `PortRef` magic is disabled.
         inst._elaborated = True
+        # Its `Bundle` definition, and those nested in it, are in use from here on.
+        # As for elaborated Modules, nothing can be added to them any more.
+        defns = [inst.of]
+        while defns:
+            defn = defns.pop()
+            defn._elaborated = True
+            defns.extend(sub.of for sub in defn.bundles.values())
         return inst
 
     def elaborate_instance_base(self, inst: _Instance) -> Instantiable:
